@@ -48,6 +48,9 @@ def minimise(pool, job_fn, args, result, sig, sigs_of, budget=40, timeout=600, l
             if used >= budget:
                 break
             cand = copy.deepcopy(best_a)
+            cand['plan'] = {r_: dict(d_) for r_, d_ in cand['plan'].items()}      # ranks may share one plan object
+            if b not in cand['plan'].get(rk, {}):
+                continue
             del cand['plan'][rk][b]
             cand.pop('script', None)
             cand['policy'] = {'kind': 'lowest'}
